@@ -26,6 +26,12 @@ THEOREMS = [
     'Tbox.C17.C17_finishes_exactly_once', 'Tbox.C17.gen_live', 'Tbox.C17.live_all',
     # M4: composites that reset and re-run children (Loop, LoopIf, Repeat); skeleton preservation
     'Tbox.C17.C17_loop_never_finishes', 'Tbox.C17.C17_skeleton_preserved', 'Tbox.C17.genR', 'Tbox.C17.step_sk', 'Tbox.C17.both_size',
+    # re-entrant control: callback scripts on the root
+    'Tbox.C17.C17_tree_inv_reentrant', 'Tbox.C17.C17_quiescent_after_end_reentrant', 'Tbox.C17.C17_quiescent_after_stop_reentrant',
+    'Tbox.C17.C17_no_stale_anywhere_reentrant', 'Tbox.C17.C17_final_once_per_run_reentrant', 'Tbox.C17.C17_reset_fresh_reentrant',
+    'Tbox.C17.C17_start_tail_after_reset_counterexample', 'Tbox.C17.C17_start_tail_repaired',
+    'Tbox.C17.C17_parallel_replay_into_next_run_counterexample', 'Tbox.C17.C17_parallel_replay_repaired',
+    'Tbox.C17.C17_parallel_restart_from_final_callback', 'Tbox.C17.stepR_wf', 'Tbox.C17.hookF_ok', 'Tbox.C17.startR_wf', 'Tbox.C17.runTaskR_wf',
     # ActionExecutor
     'Tbox.C17.C17_exec_one_at_a_time', 'Tbox.C17.C17_exec_heads_only', 'Tbox.C17.C17_exec_highest_priority_first', 'Tbox.C17.Exec.sched_hp', 'Tbox.C17.Exec.sched_inv', 'Tbox.C17.Exec.xstep_inv',
     # the inductive steps themselves
@@ -49,13 +55,13 @@ TRUSTED = [
     'the Trace vectors, labels, vars() and toJson of actions are not modelled; reasons are modelled by their code',
 ]
 ASSUMPTIONS = [
-    'control calls (start/pause/resume/stop/reset) are made on the root only, from the loop thread',
+    'control calls (start/pause/resume/stop/reset) are made on the root only, from the loop thread: from outside (do / defer) or from inside the callbacks of the ROOT (final: synchronous inside finish()/stop(); finish, block: from the loop); call-outs of inner nodes (function bodies, DummyAction callbacks, nested final callbacks) making control calls are not modelled',
     'a DummyAction leaf is completed / blocked by its owner only while it is running',
     'no two armed timers share a deadline (durations are 100k + a residue unique per node, clock steps are multiples of 100 ms)',
     'ActionExecutor: its actions are leaves (dummy / function / pre-stopped); callbacks do not call back into the executor; destruction is exercised only between cases',
     'run ids do not wrap (2^63 deferred tasks)',
 ]
-RULE = ('random action trees (depth <= 4, <= 40 nodes, all 10 composites and all their modes, leaves Function succ/fail(+case tag), Sleep, Dummy, '
+RULE = ('(re-entrant control: one-shot scripts start/pause/resume/stop/reset attached to the final / finish / block callback of the root, exhaustively over small trees x scripts x one control call, and in random scripts) random action trees (depth <= 4, <= 40 nodes, all 10 composites and all their modes, leaves Function succ/fail(+case tag), Sleep, Dummy, '
         'timeouts on any node) driven by op scripts: start, then passes / clock steps / control calls (single, paired, deferred with runNext) and '
         'emits on dummy leaves; plus exhaustive placement of one (thorough: two) control calls over all passes of small trees; non-trivial = the root '
         'delivered a finish or block notification on a tree of >= 3 nodes, or a result was held back / replayed, or a timeout fired; distinct = distinct op text')
@@ -183,6 +189,48 @@ def gen_placement(tree, calls_at, length=8, advs=(3, 6)):
     return ops
 
 
+SCRIPTS = ['reset', 'reset start', 'stop', 'start', 'pause', 'reset start pause', 'stop reset start', 'reset reset start', 'resume', 'pause resume']
+# trees whose root ends inside its own start() (empty composites), ends from a handler, from its timeout, from a replay
+REENT_TREES = SMALL + ['( seq:all )', '( par:all )', '( par:anyf )', '( seq:all ( seq:all ) Fs )', '( par:anys Fs D )', '( par:anyf Ff D Z1 )',
+                       '( par:anys D Fs Z0 )', '( par:all D D )', '( seq:all D D )', '( cmp D )', '( wr:i D )', '( ife:tf D Fs )',
+                       '( loop:us D )', '( rep:2:bs D )', '( par:anys@0 D Z1 )', '( seq:anys ( par:anys Fs D ) Fs )', '( sw:n Fs:3 Fs )']
+
+
+def gen_scripted(tree, which, script, at, length=7, pre=None, second=None):
+    """a one-shot callback script on the root; optionally a control call at pass `at`"""
+    ops = ['tree ' + tree, 'cb %s %s' % (which, script)]
+    if second:
+        ops.append('cb %s %s' % second)
+    ops.append('do start')
+    for i in range(length):
+        if pre is not None and i == at:
+            ops.append(pre)
+        elif i in (3, 5):
+            ops.append('adv 1')
+        else:
+            ops.append('pass')
+    ops += ['do resume', 'pass', 'adv 2', 'pass', 'do start', 'pass', 'pass']
+    return ops
+
+
+def gen_scripted_random(rng, nops):
+    tree, n, dummies = gen_tree(rng, max_depth=rng.choice([1, 2, 3]), max_nodes=rng.choice([4, 8, 16]),
+                                p_tmo=rng.choice([0, 0.1, 0.3]), leaves=rng.choice(['FFFFZZD', 'FFFD', 'FZZ', 'FFDD', 'F', 'DDZ']))
+    ops = [tree]
+    for _ in range(rng.choice([1, 1, 2, 3])):
+        ops.append('cb %s %s' % (rng.choice(['final', 'final', 'final', 'fin', 'fin', 'blk']), rng.choice(SCRIPTS)))
+    ops.append('do start')
+    for _ in range(nops):
+        r = rng.random()
+        if r < 0.40: ops.append('pass')
+        elif r < 0.52: ops.append('adv %d' % rng.choice([1, 1, 2, 3]))
+        elif r < 0.80: ops.append('do ' + ' '.join(rand_call(rng, dummies) for _ in range(rng.choice([1, 1, 2]))))
+        elif r < 0.88: ops.append('defer ' + ' '.join(rand_call(rng, dummies) for _ in range(rng.choice([1, 2]))))
+        else: ops.append('cb %s %s' % (rng.choice(['final', 'final', 'fin', 'blk']), rng.choice(SCRIPTS)))
+    ops += ['do resume', 'pass', 'adv 5', 'pass', 'pass']
+    return ops
+
+
 def gen(rng, tier):
     quick = tier == 'quick'
     # malformed stream: both sides must answer bad-op
@@ -214,7 +262,27 @@ def gen(rng, tier):
                 for a in pair:
                     for b in pair:
                         yield gen_placement(tree, {i: a, j: b}, L)
+    # re-entrant control: one-shot scripts in the root's final / finish / block callback
+    yield ['tree ( seq:all Fs )', 'cb', 'cb final', 'cb nope start', 'cb final emit:0:s', 'cb final start start start start start start start', 'cb final reset start', 'do start', 'pass', 'pass']
+    for tree in REENT_TREES:
+        for which in ('final', 'fin'):
+            for sc in (SCRIPTS if not quick else SCRIPTS[:5]):
+                yield gen_scripted(tree, which, sc, None)
+        for pre in ('do stop', 'do pause', 'do emit:1:s', 'do emit:1:b', 'defer stop'):
+            for sc in SCRIPTS[:4]:
+                yield gen_scripted(tree, 'final', sc, 1, pre=pre)
+        yield gen_scripted(tree, 'blk', 'stop', 1, pre='do emit:1:b')
+        yield gen_scripted(tree, 'blk', 'reset start', 1, pre='do emit:1:b')
+        yield gen_scripted(tree, 'final', 'reset start', None, second=('final', 'reset start'))
+        yield gen_scripted(tree, 'final', 'reset start', None, second=('fin', 'reset start'))
+    # held-back results of a parallel replayed after resume, the final callback restarting it in the middle of the replay
+    for tree in ('( par:anys Fs Fs D )', '( par:anyf Ff Ff D )', '( par:anys D D D )', '( par:anys Fs Ff Fs Z1 )', '( par:all Fs Fs )', '( seq:all ( par:anys Fs Fs D ) Fs )'):
+        for sc in ('reset start', 'reset', 'stop', 'reset start pause', 'stop reset start'):
+            yield ['tree ' + tree, 'cb final ' + sc, 'do start pause', 'do emit:1:s emit:2:s', 'pass', 'do resume', 'pass', 'pass', 'do emit:3:s', 'pass', 'pass']
+            yield ['tree ' + tree, 'cb final ' + sc, 'do start', 'do pause', 'do emit:1:s emit:2:f emit:3:s', 'pass', 'do resume', 'pass', 'pass', 'pass']
     n = 1500 if quick else 12000
+    for _ in range(n // 4):
+        yield gen_scripted_random(rng, rng.choice([6, 12, 20]))
     yield ['xcancelcur', 'xapp D 3', 'xapp Q 1', 'xapp D 1', 'tree Fs', 'do start', 'xemit 0 s', 'xcancel 0', 'xpass', 'xapp D 1']
     yield ['xapp D 2', 'xcancelcur', 'xapp D 0', 'xemit 2 s', 'xpass']
     yield ['xapp D 1', 'xcancel 1', 'xcancelcur', 'xapp D 1', 'xemit 2 f']
@@ -288,7 +356,7 @@ LEVEL_TEXT = ('Lean 4 theorems over an executable model of the action framework.
               'under-way child of a serial composite and a held-back result exists only without a current child, the final hook ran exactly '
               'once iff the action ended, reset() returns every action to its freshly built fields. (3) SequenceAction control flow = documented '
               'loop for any number of children. (4) Counterexample theorems (kernel evaluation in the unrepaired configuration) for the '
-              'defects repaired by patches/C17-01..04 (C17-05 is a hardening of C17-01 found by the invariant proof), each with its repaired counterpart. The model is tied to the real code on every run by '
+              'defects repaired by patches/C17-01..04 and C17-07..08 (C17-05 is a hardening of C17-01 found by the invariant proof), each with its repaired counterpart. (5) Re-entrant control: WF and its corollaries are proved inductive for histories with callback scripts on the root (Reent.lean, stepR_wf). The model is tied to the real code on every run by '
               'differential execution of generated trees and control scripts on the real epoll loop under a virtual clock; the driver also '
               'evaluates WF and the documented result (reference evaluator, all composites) on every visited state')
 LEVEL_NOTE = ('whole-tree "root result = documented meaning, exactly one finish notification, leaves called in the documented order" is PROVED through '
